@@ -5,9 +5,11 @@ import (
 	"os"
 	"path/filepath"
 	"runtime"
+	"strconv"
 	"strings"
 	"sync"
 	"syscall"
+	"time"
 )
 
 // Mutant is a small source rewrite applied IN MEMORY (packages.Config.Overlay)
@@ -154,7 +156,20 @@ func selfTest(prop string) map[string]interface{} {
 	defer unlock()
 	sem := make(chan struct{}, 3)
 	var wg sync.WaitGroup
+	// the replay is bounded in time (PLUSH_REPLAY_BUDGET seconds, default 1500): what does not fit is recorded as
+	// not replayed - the self-test measures the checker, it must not make the check of the tree run for hours
+	budget := 1500 * time.Second
+	if v := os.Getenv("PLUSH_REPLAY_BUDGET"); v != "" {
+		if n, err := strconv.Atoi(v); err == nil && n > 0 {
+			budget = time.Duration(n) * time.Second
+		}
+	}
+	deadline := time.Now().Add(budget)
 	for _, j := range jobs {
+		if time.Now().After(deadline) {
+			j.skip = "not replayed: time budget of the self-test used up"
+			continue
+		}
 		wg.Add(1)
 		sem <- struct{}{}
 		go func(j *job) {
